@@ -126,7 +126,13 @@ PROPS = {
                                   'history (save / delete / delete absent / delete twice / delete_process), listing, per-process listing and 3 '
                                   'loads compared with the abstract map after every operation'}],
             'not_claimed': ['PicklePersister is covered by the bounded comparison only']},
-    'C20': {'scans': [], 'trusted': [], 'bounded': [], 'not_claimed': []},
+    'C20': {'scans': [], 'trusted': [],
+            'bounded': [{'name': 'task_outcome_search', 'recipe': 'task_outcomes',
+                         'functions': 'futures.create_task (run_coroutine_threadsafe, closure over the loop future) and '
+                                      'communications.plum_to_kiwi_future.<on_done>: scheduling is outside the contracts',
+                         'bound': '8 ways a scheduled coroutine ends (values incl. falsy ones, an exception, CancelledError raised inside, '
+                                  'cancellation of an awaited future, a loop future as value): outcome of the returned future and of its mirror'}],
+            'not_claimed': []},
     'C15': {'scans': [], 'trusted': [],
             'bounded': [{'name': 'expose_call_sequences', 'recipe': 'expose_calls',
                          'functions': 'ProcessSpec.expose_inputs / expose_outputs / _expose_ports (class objects as dictionary keys, '
